@@ -81,7 +81,7 @@ def forms_pass(ck, seed: int, per_op: int) -> Dict[str, Any]:
                      "reason_kind": "forms_differ", "piped": _proj(p["trace"]["ev"])[:25], "fluent": _proj(f["trace"]["ev"])[:25]})
         traces.append(f["trace"])
     keep = ("e", "id", "k", "g", "r", "o", "t")
-    tl = [{"strict": t["strict"], "ev": [{k: v for k, v in e.items() if k in keep} for e in t["ev"]]} for t in traces]
+    tl = [{"strict": t["strict"], "own": t.get("own", False), "solo": t.get("solo", False), "ev": [{k: v for k, v in e.items() if k in keep} for e in t["ev"]]} for t in traces]
     rejected, ress = tracecheck.validate("LifecycleTrace", lc.CONSTS, tl, timeout=900)
     for r in ress:
         ck.add_tlc(r, f"fluent-form executions against the Lifecycle monitor: {len(tl)} traces")
